@@ -3,7 +3,8 @@
    entry_points / writable_globals are REGENERATED from /repo's working tree on every run (coq/gen/LockSkeleton.v from the
    clang AST of jitallocator.cpp + jitruntime.cpp, coq/gen/WritableGlobals.v from the static build). *)
 From Coq Require Import String List Bool ZArith.
-From Verif Require Import Conc.LockModel Conc.LockProofs Conc.ConcModel Conc.ConcProofs Conc.ProgramProofs.
+From Verif Require Import Jit.JitModel Jit.JitBits Jit.JitBlockProofs Jit.JitProofs Jit.JitWitness Conc.JitConcProofs.
+From Verif Require Import Conc.LockModel Conc.LockProofs Conc.ConcModel Conc.ConcProofs Conc.ProgramProofs Conc.FreshProofs.
 From VerifGen Require Import LockSkeleton WritableGlobals.
 Import ListNotations.
 
@@ -57,6 +58,15 @@ Theorem C11_locked_entry_points : forall name s t abrupt,
 Proof. exact (fun name s t abrupt => entry_point_well_locked entry_points name s t abrupt skeleton_ok). Qed.
 Print Assumptions C11_locked_entry_points.
 
+(* outside their critical sections the entry points (in particular JitRuntime::_add with its CodeHolder flatten / relocate / copy
+   step, and the destructors of their local RAII objects) perform only thread-local steps - on the caller's CodeHolder, Span and the
+   bytes of its own span, all thread-owned, hence covered by C11_independent_threads - and reads of never-written members *)
+Theorem C11_outside_lock_thread_local : forall name s t abrupt,
+  In (name, s) entry_points -> exec s t abrupt ->
+  unlocked_local (prot_of (written entry_points)) false t = true.
+Proof. exact (fun name s t abrupt => entry_point_unlocked_part_local entry_points name s t abrupt skeleton_ok). Qed.
+Print Assumptions C11_outside_lock_thread_local.
+
 (* DATA-RACE FREEDOM for any number of threads calling any sequences of entry points on one allocator/runtime, under every
    interleaving the mutex admits: two conflicting accesses (same cell, at least one write) of different threads are always
    separated by a release of the lock by the first thread followed by an acquire by the second (ordered by happens-before) *)
@@ -106,3 +116,60 @@ Theorem C11_hypotheses_satisfiable :
   (exists s, run (init (fun _ _ => 0%Z)) tr = Some s) /\ disciplined prot tr /\ ser tr <> tr.
 Proof. exact serialisable_hyp_sat. Qed.
 Print Assumptions C11_hypotheses_satisfiable.
+
+(* ---- fresh-object refinement: members only initialised by the constructor of their object (under the lock) may be read
+   without the lock.  Soundness: the initialising write of a fresh object is ordered before every read by another thread,
+   provided other threads touch the object for the first time while holding the lock (they learn the pointer from the
+   lock-protected tree / list / cursor or from a locked alloc) — that proviso is a trusted fact about the code *)
+Theorem C11_init_once_published : forall m tr s a i o f v b j v' c,
+  run (init m) tr = Some s ->
+  tr = a ++ (i, EWr o f v) :: b ++ (j, ERd o f v') :: c -> i <> j ->
+  holds false (proj i a) = true ->
+  (forall k e, In (k, e) a -> k <> i -> mentions e o = false) ->
+  (forall pre k e post, tr = pre ++ (k, e) :: post -> k <> i -> mentions e o = true ->
+     (forall e0, In (k, e0) pre -> mentions e0 o = false) -> holds false (proj k pre) = true) ->
+  exists b1 b2 b3, b = b1 ++ (i, ERel) :: b2 ++ (j, EAcq) :: b3.
+Proof. exact init_once_published. Qed.
+Print Assumptions C11_init_once_published.
+
+(* ---- C09 lifted to concurrent histories (critical sections in acquire order, C11_linearizable): if every thread releases and
+   shrinks only spans it obtained itself and has not released (conc_reach), then in EVERY interleaving every operation is a
+   valid operation of the sequential model, so every state is reachable there and all C09 theorems apply *)
+Local Open Scope Z_scope.
+Theorem C11_c09_lifts : forall c st own, cfg_ok c -> conc_reach c st own ->
+  reach c st /\ keys_live (blocks st) own /\ NoDup (map snd own).
+Proof. exact conc_reach_sound. Qed.
+Print Assumptions C11_c09_lifts.
+
+Theorem C11_c09_invariant_concurrent : forall c st own, cfg_ok c -> conc_reach c st own -> ginv c st.
+Proof. exact conc_ginv. Qed.
+Print Assumptions C11_c09_invariant_concurrent.
+
+Theorem C11_c09_live_disjoint_concurrent : forall c st own, cfg_ok c -> conc_reach c st own ->
+  forall b1 b2 sp1 sp2, In b1 (blocks st) -> In b2 (blocks st) -> In sp1 (b_live b1) -> In sp2 (b_live b2) ->
+  (b_id b1 = b_id b2 -> b1 = b2) /\
+  (1 <= snd sp1 /\ b_pad b1 <= fst sp1 /\ fst sp1 + snd sp1 <= b_area b1) /\
+  (b1 = b2 -> forall i, in_span sp1 i -> in_span sp2 i -> sp1 = sp2).
+Proof. exact conc_live_disjoint. Qed.
+Print Assumptions C11_c09_live_disjoint_concurrent.
+
+Theorem C11_c09_stats_exact_concurrent : forall c st own, cfg_ok c -> conc_reach c st own ->
+  s_allocs (statistics c st) = total_live (blocks st) /\
+  s_used (statistics c st) =
+    fold_right (fun b a => (b_pad b + sum_len (b_live b)) * pool_gran c (b_pool b) + a) 0 (blocks st) /\
+  s_reserved (statistics c st) = fold_right (fun b a => b_area b * pool_gran c (b_pool b) + a) 0 (blocks st).
+Proof. exact conc_stats_exact. Qed.
+Print Assumptions C11_c09_stats_exact_concurrent.
+
+(* per-thread ownership: spans owned by different threads are different live spans (their granules are disjoint by the
+   theorem above) *)
+Theorem C11_owned_spans_distinct : forall c st own (i j : nat) k1 k2, cfg_ok c -> conc_reach c st own ->
+  In (i, k1) own -> In (j, k2) own -> i <> j ->
+  k1 <> k2 /\ (exists n1, In (fst k1, (snd k1, n1)) (all_live (blocks st))) /\
+              (exists n2, In (fst k2, (snd k2, n2)) (all_live (blocks st))).
+Proof. exact owned_spans_distinct. Qed.
+Print Assumptions C11_owned_spans_distinct.
+
+Theorem C11_concurrent_history_satisfiable : exists st own, conc_reach cfg_f st own /\ map fst own = [1%nat].
+Proof. exact conc_reach_example. Qed.
+Print Assumptions C11_concurrent_history_satisfiable.
